@@ -205,6 +205,9 @@ class SumOperator(LinearOperator):
         if from_inverse:
             raise NotImplementedError(
                 "cannot draw from inverse of this operator")
+        if any(self._neg):
+            raise NotImplementedError(
+                "cannot draw from a sum with negated summands")
         res = None
         for op in self._ops:
             from .simple_linear_operators import NullOperator
